@@ -43,33 +43,6 @@ ParseIntX(s) ==
   ELSE ParseInt(s)
 
 \* ---- typed conversion of a group's text (ValueType::parse) ------------------------------------
-\* "yyyy-mm-dd hh:mm:ss"
-DaysIn(y, m) == IF m \in {1, 3, 5, 7, 8, 10, 12} THEN 31 ELSE IF m # 2 THEN 30
-                ELSE IF (y % 4 = 0 /\ y % 100 # 0) \/ y % 400 = 0 THEN 29 ELSE 28
-ValidDate(y, m, d) == y >= 1 /\ y <= 9999 /\ m >= 1 /\ m <= 12 /\ d >= 1 /\ d <= DaysIn(y, m)
-ValidTime(h, mi, s) == h >= 0 /\ h <= 23 /\ mi >= 0 /\ mi <= 59 /\ s >= 0 /\ s <= 59
-
-Digits2(s, i) == IsDigit(s[i]) /\ IsDigit(s[i + 1])
-Num(s, i, n) == DigitsVal(SubSeq(s, i, i + n - 1), 0)
-ParseTs(s) ==      \* the strict "%Y-%m-%d %H:%M:%S" form with 4-digit year and 2-digit parts; other spellings: not modelled
-  IF Len(s) = 19 /\ (\A i \in {1, 2, 3, 4, 6, 7, 9, 10, 12, 13, 15, 16, 18, 19} : IsDigit(s[i]))
-     /\ s[5] = 45 /\ s[8] = 45 /\ s[11] = 32 /\ s[14] = 58 /\ s[17] = 58
-  THEN LET y == Num(s, 1, 4) m == Num(s, 6, 2) d == Num(s, 9, 2) h == Num(s, 12, 2) mi == Num(s, 15, 2) sc == Num(s, 18, 2)
-       IN IF ValidDate(y, m, d) /\ ValidTime(h, mi, sc) THEN TsV(<<y, m, d, h, mi, sc, 0>>)
-          ELSE IF sc = 60 THEN XUnk ELSE XNone
-  ELSE IF \E i \in 1..Len(s) : IsDigit(s[i]) THEN (IF \A i \in 1..Len(s) : IsDigit(s[i]) \/ s[i] \in {45, 32, 58} THEN XUnk ELSE XNone)
-  ELSE XNone
-
-RECURSIVE SplitOn(_, _, _)
-SplitOn(s, c, cur) == IF s = <<>> THEN <<cur>> ELSE IF Head(s) = c THEN <<cur>> \o SplitOn(Tail(s), c, <<>>) ELSE SplitOn(Tail(s), c, Append(cur, Head(s)))
-ParseIv(s) ==
-  LET ps == SplitOn(s, 58, <<>>)
-  IN IF Len(ps) # 3 THEN XNone
-     ELSE LET h == ParseInt(ps[1]) m == ParseInt(ps[2]) sc == ParseInt(ps[3])
-          IN IF h.t = "none" \/ m.t = "none" \/ sc.t = "none" THEN XNone
-             ELSE IF h.t = "unk" \/ m.t = "unk" \/ sc.t = "unk" THEN XUnk
-             ELSE IvV((h.i * 3600 + m.i * 60 + sc.i) * 1000)
-
 \* result: a Value, XNone (not a literal of the type -> NULL) or XUnk (spelling not modelled)
 ParseAs(ty, s) ==
   CASE ty = "text" -> TextV(s)
